@@ -1037,7 +1037,9 @@ class mulgrid(object):
                         c.neighbour.add(col2)
                     del col.node[i[3]]
                     col.centre = col.centroid
+                    col.get_area()
                     self.add_column(col2)
+                    self.set_column_num_layers(col2)
                     self.add_connection(connection([col, col2]))
                     self.setup_block_name_index()
                     self.setup_block_connection_name_index()
